@@ -107,7 +107,7 @@ pub fn run_case(case: &Case) -> (Vec<(String, String)>, Info) {
                     }
                     v.push((
                         format!("C02|node_aborts|site={}|regime={}", site, regime(b)),
-                        format!("add_block panicked at {} on an honestly produced block id {} ({}): {}", site, b.id, regime(b), msg),
+                        format!("add_block panicked at {} on block id {} ({}): {}", site, b.id, regime(b), msg),
                     ));
                     return (v, info);
                 }
@@ -217,18 +217,38 @@ pub fn arb_case(max_blocks: usize) -> impl Strategy<Value = Case> {
         if rich {
             hist.issuance.extend([(0u8, 400_000_000u64), (1, 500_000_000), (2, 600_000_000)]);
         }
-        // exclusion by construction behind known finding F11 (u64 overflow of amount x payout
-        // multiplier): very large amounts are combined with a zero genesis treasury only; the
-        // finding itself is re-executed from its replay file on every run
-        if hist.issuance.iter().any(|(_, a)| *a >= (1u64 << 36)) {
-            hist.treasury = 0;
+        // every eighth position: a two-block side chain [valid sibling of the previous block, child with
+        // an input that was already spent / never existed]. Its second block makes the side chain
+        // longer, the reorganisation fails part-way, and the history returns to the honest block:
+        // supply must still be what was issued after the blocks accepted from then on.
+        let n = hist.blocks.len();
+        for i in 1..n {
+            if i % 8 == 4 && i + 2 < n {
+                let sel = hist.blocks[i].dt as usize + i;
+                {
+                    let s1 = &mut hist.blocks[i];
+                    s1.parent = None;
+                    s1.back = Some(1);
+                    s1.bad_tx = None;
+                    s1.corrupt = None;
+                }
+                {
+                    let s2 = &mut hist.blocks[i + 1];
+                    s2.parent = None;
+                    s2.back = None;
+                    s2.bad_tx = Some((if sel % 2 == 0 { crate::adversary::TxEdit::SpentInput } else { crate::adversary::TxEdit::NonExistentInput }, 1, 0));
+                }
+                let r = &mut hist.blocks[i + 2];
+                r.parent = None;
+                r.back = Some(2);
+            }
         }
         Case { hist }
     })
 }
 
 pub fn run(ctx: &mut Ctx) {
-    ctx.rule = "honest histories (linear and forked, up to 40 blocks, gp in {4,5,6,8,12,100} so the rebroadcast window wraps several times; fees 0..4e8, routing paths, golden-ticket payouts, genesis treasury 0 or up to 1e12 so the rebroadcast payout multiplier exceeds 1 and the 5% cap regime is reached, issuance amounts from 1 nolan to 2^58) delivered to a node; after every block accepted onto the longest chain: sum (u128) of spendable in-window non-bound outputs of the node's own utxoset + tip treasury + graveyard + previous_block_unpaid + total_fees == amount issued in the genesis block; every accepted user transaction has outputs <= inputs in u128; the node's own supply check must not abort. evaluations = accepted blocks checked. non-trivial = history has >= 1 fee-paying transaction and >= 1 golden-ticket payout; distinct by case digest. (overflow-based minting by adversarial transactions is exercised in C01: edits Overspend / OverspendWrap)".into();
+    ctx.rule = "histories of honestly produced blocks (linear and forked, up to 40 blocks; every eighth position a two-block side chain whose second block spends a spent / non-existent output, so that a reorganisation fails part-way and the history continues on the honest chain; gp in {4,5,6,8,12,100} so the rebroadcast window wraps several times; fees 0..4e8, routing paths, golden-ticket payouts, genesis treasury 0 or up to 1e12 so the rebroadcast payout multiplier exceeds 1 and the 5% cap regime is reached, issuance amounts from 1 nolan to 2^58, with any genesis treasury) delivered to a node; after every block accepted onto the longest chain: sum (u128) of spendable in-window non-bound outputs of the node's own utxoset + tip treasury + graveyard + previous_block_unpaid + total_fees == amount issued in the genesis block; every accepted user transaction has outputs <= inputs in u128; the node's own supply check must not abort. evaluations = accepted blocks checked. non-trivial = history has >= 1 fee-paying transaction and >= 1 golden-ticket payout; distinct by case digest. (overflow-based minting by adversarial transactions is exercised in C01: edits Overspend / OverspendWrap)".into();
     let cases = ctx.tier.pick(500u32, 20_000);
     pbt_run(ctx, "supply", cases, arb_case(40), |c, case, counting| eval(c, case, counting));
 }
